@@ -18,8 +18,8 @@ import tempfile
 HERE = os.path.dirname(os.path.dirname(os.path.abspath(__file__)))
 PY = "/venv/bin/python"
 EXTRA_CHECKS = {  # which further checks are expected to see a mutation seeded for <ID>
-    "C05": ["C06", "C19", "C09", "C11"], "C01": ["C20"], "C02": ["C20", "C04", "C05", "C13", "C01"], "C20": ["C15"], "C04": ["C02", "C09", "C13", "C01"], "C09": ["C10"], "C10": ["C20"], "C17": ["C18", "C08"],
-    "C08": ["C17"], "C13": ["C01"], "C03": ["C06"], "C07": ["C18", "C15", "C06"], "C18": ["C07"], "C14": ["C15"], "C15": ["C14"],
+    "C05": ["C06", "C19", "C09", "C11", "C01", "C20"], "C01": ["C20"], "C02": ["C20", "C04", "C05", "C13", "C01"], "C20": ["C15"], "C04": ["C02", "C09", "C13", "C01"], "C09": ["C10"], "C10": ["C20"], "C17": ["C18", "C08"],
+    "C08": ["C17"], "C13": ["C01"], "C03": ["C06", "C04"], "C07": ["C18", "C15", "C06"], "C18": ["C07"], "C14": ["C15"], "C15": ["C14"],
 }
 
 
